@@ -414,7 +414,8 @@ func (_this *arrayEncoderEngine) beginArrayFloat16(onComplete func()) {
 	const elemWidth = 2
 	_this.setElementByteWidth(elemWidth)
 	_this.stream.WriteStringNotLF(arrayHeadersFloat16[_this.config.Encoder.CTE.DefaultNumericFormats.Array.Float16])
-	if _this.config.Encoder.CTE.DefaultNumericFormats.Array.Float16 == configuration.CTEEncodingFormatHexadecimal {
+	if _this.config.Encoder.CTE.DefaultNumericFormats.Array.Float16 != configuration.CTEEncodingFormatDecimal {
+		// CTE has no binary or octal float notation: everything but decimal is written as hex floats
 		_this.addElementsFunc = func(data []byte) {
 			for len(data) > 0 {
 				_this.writeSpaceIfNotFirstElement()
@@ -441,7 +442,8 @@ func (_this *arrayEncoderEngine) beginArrayFloat32(onComplete func()) {
 	const elemWidth = 4
 	_this.setElementByteWidth(elemWidth)
 	_this.stream.WriteStringNotLF(arrayHeadersFloat32[_this.config.Encoder.CTE.DefaultNumericFormats.Array.Float32])
-	if _this.config.Encoder.CTE.DefaultNumericFormats.Array.Float32 == configuration.CTEEncodingFormatHexadecimal {
+	if _this.config.Encoder.CTE.DefaultNumericFormats.Array.Float32 != configuration.CTEEncodingFormatDecimal {
+		// CTE has no binary or octal float notation: everything but decimal is written as hex floats
 		_this.addElementsFunc = func(data []byte) {
 			for len(data) > 0 {
 				_this.writeSpaceIfNotFirstElement()
@@ -468,7 +470,8 @@ func (_this *arrayEncoderEngine) beginArrayFloat64(onComplete func()) {
 	const elemWidth = 8
 	_this.setElementByteWidth(elemWidth)
 	_this.stream.WriteStringNotLF(arrayHeadersFloat64[_this.config.Encoder.CTE.DefaultNumericFormats.Array.Float64])
-	if _this.config.Encoder.CTE.DefaultNumericFormats.Array.Float64 == configuration.CTEEncodingFormatHexadecimal {
+	if _this.config.Encoder.CTE.DefaultNumericFormats.Array.Float64 != configuration.CTEEncodingFormatDecimal {
+		// CTE has no binary or octal float notation: everything but decimal is written as hex floats
 		_this.addElementsFunc = func(data []byte) {
 			for len(data) > 0 {
 				_this.writeSpaceIfNotFirstElement()
@@ -657,28 +660,28 @@ var arrayHeadersInt64 = []string{
 }
 var arrayHeadersFloat16 = []string{
 	configuration.CTEEncodingFormatDecimal:               "@f16[",
-	configuration.CTEEncodingFormatBinary:                "@f16b[",
-	configuration.CTEEncodingFormatBinaryZeroFilled:      "@f16b[",
-	configuration.CTEEncodingFormatOctal:                 "@f16o[",
-	configuration.CTEEncodingFormatOctalZeroFilled:       "@f16o[",
+	configuration.CTEEncodingFormatBinary:                "@f16x[",
+	configuration.CTEEncodingFormatBinaryZeroFilled:      "@f16x[",
+	configuration.CTEEncodingFormatOctal:                 "@f16x[",
+	configuration.CTEEncodingFormatOctalZeroFilled:       "@f16x[",
 	configuration.CTEEncodingFormatHexadecimal:           "@f16x[",
 	configuration.CTEEncodingFormatHexadecimalZeroFilled: "@f16x[",
 }
 var arrayHeadersFloat32 = []string{
 	configuration.CTEEncodingFormatDecimal:               "@f32[",
-	configuration.CTEEncodingFormatBinary:                "@f32b[",
-	configuration.CTEEncodingFormatBinaryZeroFilled:      "@f32b[",
-	configuration.CTEEncodingFormatOctal:                 "@f32o[",
-	configuration.CTEEncodingFormatOctalZeroFilled:       "@f32o[",
+	configuration.CTEEncodingFormatBinary:                "@f32x[",
+	configuration.CTEEncodingFormatBinaryZeroFilled:      "@f32x[",
+	configuration.CTEEncodingFormatOctal:                 "@f32x[",
+	configuration.CTEEncodingFormatOctalZeroFilled:       "@f32x[",
 	configuration.CTEEncodingFormatHexadecimal:           "@f32x[",
 	configuration.CTEEncodingFormatHexadecimalZeroFilled: "@f32x[",
 }
 var arrayHeadersFloat64 = []string{
 	configuration.CTEEncodingFormatDecimal:               "@f64[",
-	configuration.CTEEncodingFormatBinary:                "@f64b[",
-	configuration.CTEEncodingFormatBinaryZeroFilled:      "@f64b[",
-	configuration.CTEEncodingFormatOctal:                 "@f64o[",
-	configuration.CTEEncodingFormatOctalZeroFilled:       "@f64o[",
+	configuration.CTEEncodingFormatBinary:                "@f64x[",
+	configuration.CTEEncodingFormatBinaryZeroFilled:      "@f64x[",
+	configuration.CTEEncodingFormatOctal:                 "@f64x[",
+	configuration.CTEEncodingFormatOctalZeroFilled:       "@f64x[",
 	configuration.CTEEncodingFormatHexadecimal:           "@f64x[",
 	configuration.CTEEncodingFormatHexadecimalZeroFilled: "@f64x[",
 }
